@@ -45,6 +45,12 @@ __CPROVER_ensures(__CPROVER_return_value == NULL ||
 __CPROVER_ensures(__CPROVER_return_value != NULL ==>
                   (g_last_req == item_size * item_count && g_malloc_calls == __CPROVER_old(g_malloc_calls) + 1 &&
                    item_size * item_count <= VERIF_MAXOBJ /* the model grants no larger block */))
+/* the guard is the documented bit-length rule (it also refuses some products that would fit): a request is
+ * issued exactly when the guard accepts */
+#define SPEC_MUL_GUARD(a, b) ((a) <= 1 || (b) <= 1 || SPEC_BITLEN(a) + SPEC_BITLEN(b) <= 64)
+__CPROVER_ensures(SPEC_MUL_GUARD(item_size, item_count)
+                      ? g_malloc_calls == __CPROVER_old(g_malloc_calls) + 1
+                      : (__CPROVER_return_value == NULL && g_malloc_calls == __CPROVER_old(g_malloc_calls)))
 /* a wrapping product issues no request at all */
 __CPROVER_ensures(__CPROVER_overflow_mult(item_size, item_count) ==>
                   (__CPROVER_return_value == NULL && g_malloc_calls == __CPROVER_old(g_malloc_calls)))
